@@ -104,7 +104,11 @@ fn pick_col<'a>(rng: &mut Rng, s: &'a Src, kinds: &str) -> Option<&'a (String, &
 fn gen_scalar(rng: &mut Rng, s: &Src, depth: u32) -> String {
     let num = pick_col(rng, s, "if").map(|c| c.0.clone()).unwrap_or("1".into());
     if depth == 0 { return num; }
-    match rng.below(12) {
+    match rng.below(15) {
+        // the mathematical and text functions the reader lists as supported
+        12 => { let f = *rng.pick(&["sqrt(abs({x}))", "exp({x} / 10)", "ln(abs({x}) + 1)", "log10(abs({x}) + 1)", "sin({x})", "cos({x})", "round({x} / 3)", "sign({x})", "pow({x}, 2)", "trunc({x} / 3)", "{x} * {x}", "- {x}", "tan({x} / 20)", "log2(abs({x}) + 1)", "abs({x}) + sign({x})"]); f.replace("{x}", &num) }
+        13 => pick_col(rng, s, "t").map(|c| { let f = *rng.pick(&["lower({t})", "substr({t}, 1, 1)", "ltrim({t})", "rtrim({t})", "{t} || 'x'", "char_length({t})", "upper(lower({t}))", "concat(lower({t}), upper({t}))"]); f.replace("{t}", &c.0) }).unwrap_or(num),
+        14 => format!("CASE WHEN {num} IS NULL THEN -1 WHEN {num} BETWEEN 1 AND 4 THEN 1 ELSE 0 END"),
         // several WHEN branches with overlapping conditions: the first match wins
         9 => { let (x, y) = (rng.range(0, 4), rng.range(3, 9)); format!("CASE WHEN {num} < {x} THEN 1 WHEN {num} < {y} THEN 2 WHEN {num} < {} THEN 3 ELSE 4 END", y + 2) }
         10 => pick_col(rng, s, "t").map(|c| format!("CASE WHEN {num} > 5 THEN 'hi' WHEN {num} > 1 THEN {} ELSE 'lo' END", c.0)).unwrap_or(num),
@@ -123,7 +127,12 @@ fn gen_scalar(rng: &mut Rng, s: &Src, depth: u32) -> String {
 
 fn gen_where(rng: &mut Rng, s: &Src) -> String {
     let c = pick_col(rng, s, "if").map(|c| c.0.clone()).unwrap_or("1".into());
-    match rng.below(6) {
+    match rng.below(11) {
+        6 => format!("{c} BETWEEN {} AND {}", rng.range(-2, 3), rng.range(3, 9)),
+        7 => format!("NOT ({c} > {})", rng.range(0, 6)),
+        8 => format!("{c} IS NOT NULL AND {c} <> {}", rng.range(0, 5)),
+        9 => pick_col(rng, s, "t").map(|t| format!("{} LIKE 'x%' OR {c} < 3", t.0)).unwrap_or(format!("{c} >= 2")),
+        10 => format!("abs({c}) + 1 > {} AND NOT ({c} = {})", rng.range(1, 5), rng.range(0, 5)),
         0 => format!("{c} > {}", rng.range(-2, 6)), 1 => format!("{c} <= {}", rng.range(-2, 8)),
         2 => format!("{c} IN ({}, {})", rng.range(0, 4), rng.range(4, 9)),
         3 => { let d = pick_col(rng, s, "if").map(|c| c.0.clone()).unwrap_or("1".into()); format!("{c} > 1 AND {d} < 9") }
@@ -218,6 +227,17 @@ pub fn gen(rng: &mut Rng, _k: usize, _tier: &str) -> J {
     json!({"sql": sql, "ordered": ordered, "data_seed": rng.next() % 1000000})
 }
 
+/// membership of an executed cell in a declared type; float results of transcendental functions (sin, ln ...) computed by SQLite may differ
+/// from the library's own evaluation in the last bits, so floats are matched with a relative tolerance of 1e-9
+pub fn mem_cell(t: &DataType, v: &Value) -> bool {
+    if mem(t, v) { return true; }
+    let base = match t { DataType::Optional(o) => o.data_type().clone(), t => t.clone() };
+    let f = match v { Value::Float(f) => **f, Value::Optional(o) => match o.as_deref() { Some(Value::Float(f)) => **f, _ => return false }, _ => return false };
+    if !f.is_finite() { return false; }
+    if let DataType::Float(iv) = &base { let eps = 1e-9 * f.abs() + 1e-12; return iv.iter().any(|[a, b]| f >= a - eps && f <= b + eps); }
+    false
+}
+
 fn cell_value(c: &Cell, t: &DataType) -> Value {
     let base = match t { DataType::Optional(o) => o.data_type().clone(), t => t.clone() };
     match (c, &base) {
@@ -273,7 +293,13 @@ pub fn eval(case: &J) -> Outcome {
     let rel = match guarded(|| { let q = parse(sql).map_err(|e| e.to_string())?; Relation::try_from(QueryWithRelations::new(&q, &rels)).map_err(|e| e.to_string()) }) {
         Ok(Ok(r)) => r,
         Ok(Err(_)) => { out.tag("trivial"); out.tag("compile-err"); return out; }
-        Err((loc, msg)) => { out.tag("trivial"); out.fail(&format!("C18/sqlx/compile-panic/{}/{cls}", site(&loc, &msg)), format!("{sql}: {msg}")); return out; }
+        Err((loc, msg)) => { out.tag("trivial");
+            // the cause, when the message and the text name it: a division (also inside tan = sin / cos) whose operand ranges contain 0;
+            // a function applied to a column whose range the WHERE clause has made empty
+            let cause = if msg.contains("min <= max") && (sql.contains(" / ") || sql.contains("tan(")) { "division".to_string() }
+                else if msg.contains("divide by zero") { "division".to_string() }
+                else if msg.contains("Option::unwrap()") && loc.contains("data_type/function.rs") { "function-of-empty-range".to_string() } else { cls.clone() };
+            out.fail(&format!("C18/sqlx/compile-panic/{}/{cause}", site(&loc, &msg)), format!("{sql}: {msg}")); return out; }
     };
     if orders_by_missing_column(&rel) { cls = "order-by-missing-column".to_string(); out.tag("order-by-missing-column"); }
     let mut rng = Rng::new(case["data_seed"].as_u64().unwrap());
@@ -290,14 +316,14 @@ pub fn eval(case: &J) -> Outcome {
             let Some(ci) = rendered.0.iter().position(|n| n == f.name()).or(Some(i)) else { continue };
             if ci >= row.len() { continue; }
             let v = cell_value(&row[ci], &f.data_type());
-            let ok = match &row[ci] { Cell::Null => matches!(f.data_type(), DataType::Optional(_) | DataType::Unit(_) | DataType::Any), _ => mem(&f.data_type(), &v) };
+            let ok = match &row[ci] { Cell::Null => matches!(f.data_type(), DataType::Optional(_) | DataType::Unit(_) | DataType::Any), _ => mem_cell(&f.data_type(), &v) };
             // an ungrouped aggregate over an empty input returns one row of NULLs (count: 0)
             let empty_agg = row[ci] == Cell::Null && !sql.contains("GROUP BY") && rendered.1.len() == 1 && (sql.contains("sum(") || sql.contains("avg(") || sql.contains("min(") || sql.contains("max("));
             // PostgreSQL's LEAST / GREATEST ignore NULL arguments (the shim follows it); the library types them as NULL-propagating
             let extremum_of_nullable = ["least(e,", "greatest(e,", "least(t1.e,", "greatest(t1.e,"].iter().any(|p| sql.contains(p)) && row[ci] != Cell::Null;
             // a CASE whose condition is NULL takes the ELSE branch in SQL; the library types the CASE as NULL in that case
             let case_on_nullable = ["CASE WHEN e ", "CASE WHEN t1.e ", " WHEN e ", " WHEN t1.e "].iter().any(|p| sql.contains(p)) && row[ci] != Cell::Null;
-            let cls = if empty_agg { "null-aggregate-over-empty-input".to_string() } else if extremum_of_nullable { "value/least-greatest-of-nullable".to_string() } else if case_on_nullable { "value/case-condition-on-nullable".to_string() } else if row[ci] == Cell::Null { format!("null/{cls}") } else if sql.contains("FULL JOIN") || sql.contains("LEFT JOIN") || sql.contains("RIGHT JOIN") { "value/outer-join".to_string() } else { format!("value/{cls}") };
+            let cls = if empty_agg { "null-aggregate-over-empty-input".to_string() } else if extremum_of_nullable { "value/least-greatest-of-nullable".to_string() } else if case_on_nullable { "value/case-condition-on-nullable".to_string() } else if (sql.contains("sin(") || sql.contains("cos(") || sql.contains("tan(")) && matches!(row[ci], Cell::Real(_)) && f.data_type().to_string().contains("float{") { "value/sin-cos-of-wide-range".to_string() } else if row[ci] == Cell::Null { format!("null/{cls}") } else if sql.contains("FULL JOIN") || sql.contains("LEFT JOIN") || sql.contains("RIGHT JOIN") { "value/outer-join".to_string() } else { format!("value/{cls}") };
             if !ok { out.fail(&format!("C07/sqlx/cell-outside-type/{cls}"), format!("{sql}: column `{}` is declared {} but execution produced {} (row {:?})", f.name(), f.data_type(), row[ci], row)); break; }
         }
         if !out.oracle.is_empty() { break; }
@@ -322,6 +348,9 @@ pub fn eval(case: &J) -> Outcome {
         Ok(orig) => {
             let (a, b) = (rows_key(&orig.1), rows_key(&rendered.1));
             let same = if case["ordered"].as_bool().unwrap_or(false) { a == b } else { let (mut a, mut b) = (a.clone(), b.clone()); a.sort(); b.sort(); a == b };
+            // two defects of the reader with a recognisable cause: log2 / log10 are read as log(base) / log(x) (inverted), and a division whose
+            // divisor is NULL (tan(x) = sin(x) / cos(x) on a NULL x) is rendered with a guard whose ELSE branch returns 0 instead of NULL
+            let cls = if sql.contains("log10(") || sql.contains("log2(") { "log-base-inverted".to_string() } else if sql.contains("tan(") { "division-by-null-is-zero".to_string() } else { cls.clone() };
             if !same { out.fail(&format!("C08/sqlx/different-rows/{cls}"), format!("{sql}: original returns {:?} but the rendered relation returns {:?}", orig.1.iter().take(6).collect::<Vec<_>>(), rendered.1.iter().take(6).collect::<Vec<_>>())); }
             else if orig.0 != rendered.0 { out.fail(&format!("C08/sqlx/different-column-names/{cls}"), format!("{sql}: original columns {:?}, rendered {:?}", orig.0, rendered.0)); }
             else { out.tag("c08-same"); }
@@ -462,7 +491,7 @@ pub fn eval_values(case: &J) -> Outcome {
             let before = ks.len(); ks.sort(); ks.dedup();
             if ks.len() != before { out.fail("C14/values/duplicate-in-unique-column", format!("{what}: column `{}` is declared unique but its rows are {:?}", f.name(), rows.iter().map(|r| r[ci].to_string()).collect::<Vec<_>>())); }
         }
-        for r in &rows { if r[ci] != Cell::Null && !mem(&f.data_type(), &cell_value(&r[ci], &f.data_type())) { out.fail("C07/values/cell-outside-type", format!("{what}: column `{}` is declared {} but a row holds {}", f.name(), f.data_type(), r[ci])); break; } }
+        for r in &rows { if r[ci] != Cell::Null && !mem_cell(&f.data_type(), &cell_value(&r[ci], &f.data_type())) { out.fail("C07/values/cell-outside-type", format!("{what}: column `{}` is declared {} but a row holds {}", f.name(), f.data_type(), r[ci])); break; } }
     }
     if !rel.size().contains(&(rows.len() as i64)) { out.fail("C07/values/size-outside-bounds", format!("{what}: declared size {} but {} rows", rel.size(), rows.len())); }
     out
